@@ -71,11 +71,21 @@ static int roundtrip(int d, int k, int m, int tol, uint64_t *s, int t, int it)
         if (bad) fail("fragments_needed result differs from the sequential result", t, it, rc);
     }
     if (liberasurecode_get_fragment_size(d, (int)len) != (int)(flen - 80)) fail("fragment size query", t, it, 0);
+    if (liberasurecode_get_aligned_data_size(d, len) < (int)len || liberasurecode_get_minimum_encode_size(d) <= 0) fail("size queries", t, it, 0);
     if (is_invalid_fragment(d, ed[0]) != 0) fail("own fragment judged invalid", t, it, 0);
+    {
+        /* every public entry point that looks the instance up: stripe verification and the metadata query too */
+        char *all[64]; fragment_metadata_t md; int q;
+        for (q = 0; q < k + m; q++) all[q] = q < k ? ed[q] : ep[q - k];
+        rc = liberasurecode_verify_stripe_metadata(d, all, k + m);
+        if (rc != 0) fail("stripe verification of an own stripe differs from the sequential result", t, it, rc);
+        rc = liberasurecode_get_fragment_metadata(ep[0], &md);
+        if (rc != 0 || md.idx != (uint32_t)k || md.chksum_mismatch != 0) fail("metadata query differs from the sequential result", t, it, rc);
+    }
     liberasurecode_encode_cleanup(d, ed, ep);
     free(data);
     (void)missing;
-    __sync_fetch_and_add(&ops, 6);
+    __sync_fetch_and_add(&ops, 10);
     return 0;
 }
 
